@@ -35,9 +35,7 @@ def opTree : List String → Option String
       let absp ← parseHex absp
       let arch ← parseHex hex
       let es ← (if entries == "-" then some [] else (entries.splitOn ",").mapM parseEntry)
-      let fs0 : Fs.St := { root := root == "1", cwd := ["root".toUTF8.toList], absPrefix := absp.toList,
-                           ents := [(["root".toUTF8.toList], .dir 0o755 1000), (["outside".toUTF8.toList], .dir 0o755 1000),
-                                    (["outside".toUTF8.toList, "canary".toUTF8.toList], .file "canary".toUTF8.toList 0o644 1000)] }
+      let fs0 : Fs.St := sandboxFs (root == "1") absp.toList
       let b := fun (x : Bool) => if x then "1" else "0"
       let optsOk := o.extractPath.isNone && o.usePath && o.filters.isEmpty
       let wf := decide (WellFormed es)
@@ -66,9 +64,7 @@ def opTree2 : List String → Option String
       let fl ← (if filters == "-" then some [] else (filters.splitOn ",").mapM (fun f => (parseHex f).map (·.toList)))
       let o := { o with filters := fl }
       let es ← (if entries == "-" then some [] else (entries.splitOn ",").mapM parseEntry)
-      let fs0 : Fs.St := { root := root == "1", cwd := ["root".toUTF8.toList], absPrefix := absp.toList,
-                           ents := [(["root".toUTF8.toList], .dir 0o755 1000), (["outside".toUTF8.toList], .dir 0o755 1000),
-                                    (["outside".toUTF8.toList, "canary".toUTF8.toList], .file "canary".toUTF8.toList 0o644 1000)] }
+      let fs0 : Fs.St := sandboxFs (root == "1") absp.toList
       let b := fun (x : Bool) => if x then "1" else "0"
       let sel := es.filter (selected fl)
       let listing := fun (items : List (Fs.Path × Option Fs.Ent)) =>
@@ -111,9 +107,7 @@ def opTree3 : List String → Option String
       let ans ← parseHex answers
       let _arch ← parseHex hex
       let es ← (if entries == "-" then some [] else (entries.splitOn ",").mapM parseEntry)
-      let fs0 : Fs.St := { root := root == "1", cwd := ["root".toUTF8.toList], absPrefix := absp.toList,
-                           ents := [(["root".toUTF8.toList], .dir 0o755 1000), (["outside".toUTF8.toList], .dir 0o755 1000),
-                                    (["outside".toUTF8.toList, "canary".toUTF8.toList], .file "canary".toUTF8.toList 0o644 1000)] }
+      let fs0 : Fs.St := sandboxFs (root == "1") absp.toList
       let fs1 ← if pre == "-" then some fs0 else (pre.splitOn ",").foldlM addPre fs0
       let b := fun (x : Bool) => if x then "1" else "0"
       let optsOk := o.extractPath.isNone && o.usePath && o.filters.isEmpty
